@@ -225,10 +225,14 @@ def run_case(case: Dict[str, Any], ctx: Any) -> core.CaseResult:
                         res.bad("counters-file-written", f"rank {r}: {os.path.basename(outp)} was not written")
                     continue
                 res.counters["counter_files"] += 1
-                with open(outp, "rb") as fh:
-                    head = fh.read(2)
-                with (gzip.open(outp, "rb") if head == b"\x1f\x8b" else open(outp, "rb")) as fh:
-                    out = json.loads(fh.read())
+                # read the way the name says, as the library's own readers do (.gz: gzip, otherwise JSON text)
+                try:
+                    with (gzip.open(outp, "rt", encoding="utf-8") if outp.endswith(".gz") else open(outp, "r", encoding="utf-8")) as fh:
+                        out = json.loads(fh.read())
+                except (UnicodeDecodeError, OSError, ValueError, EOFError) as e:
+                    res.bad("counters-file-reads-as-named", f"rank {r}: {os.path.basename(outp)} cannot be read the way its name says ({type(e).__name__})")
+                    os.remove(outp)
+                    continue
                 os.remove(outp)
                 n_src = len(case["files"][fnames[r]]["traceEvents"])
                 extra = out["traceEvents"][n_src:]
